@@ -447,6 +447,10 @@ ares_status_t ares_append_ai_node(int aftype, unsigned short port,
                                   unsigned int ttl, const void *adata,
                                   struct ares_addrinfo_node **nodes);
 
+/* The legacy result structures carry a TTL as int.  RFC 2181 section 8: a TTL
+ * with the most significant bit set is to be treated as zero. */
+#define ARES_TTL_TO_INT(ttl) (((ttl) > 0x7FFFFFFFU) ? 0 : (int)(ttl))
+
 void          ares_addrinfo_cat_cnames(struct ares_addrinfo_cname **head,
                                        struct ares_addrinfo_cname  *tail);
 
